@@ -49,6 +49,15 @@ def gen(rng, tier):
             doc = [{"a": x} for x in ["k", "K", "\u212a", "s", "S", "\u017f", "i", "I", "\u0130", "\u0131", "-", ".", "a", "z", "0", "/"]]
             q = {"first": {"fake": False, "segs": [["list", ["filter", ["op", "=~", ["self", ["sel", ["name", "a"]]], ["re", pat, fl]]]]]}, "rest": []}
             yield {"query": q, "doc": doc, "ctx": Q.CTX, "seed": 11, "std": False, "implicit_root": False}
+    # one pattern text under different flags: twice in one query, and in consecutive queries of the same environment
+    fdoc = [{"a": x, "b": y} for x in ("ab", "AB", "abb", "a\nb", "A\nB", "x") for y in ("ab", "AB", "a\nb")]
+    for pat in ("ab+", "a.b", "a.B", "[a-b]+"):
+        for f1, f2 in (("i", ""), ("", "i"), ("s", ""), ("", "s"), ("is", "i"), ("i", "s"), ("", "")):
+            def rx(name, fl):
+                return ["op", "=~", ["self", ["sel", ["name", name]]], ["re", pat, fl]]
+            for e in (["op", "&&", rx("a", f1), rx("b", f2)], ["op", "||", ["not", rx("a", f1)], rx("a", f2)], rx("a", f1), rx("a", f2)):
+                yield {"query": {"first": {"fake": False, "segs": [["list", ["filter", e]]]}, "rest": []}, "doc": fdoc, "ctx": Q.CTX, "seed": 14, "std": False,
+                       "implicit_root": False}
     # =~ is a match of the WHOLE string: alternations whose earlier alternative is a proper prefix of a later one
     for pat, fl in [("a|ab", ""), ("a|ab|abc", ""), ("(a|ab)(c|bcd)?", ""), ("js|json", "i"), ("(a|ab)*", ""), ("ab|a", ""), ("a*|a*b", "")]:
         doc = [{"a": x} for x in ["a", "ab", "abc", "abcd", "abab", "json", "JSON", "js", "b", ""]]
@@ -98,6 +107,9 @@ def impl(case):
     out["matches"] = attempt(lambda: show_matches(list(c.finditer(doc, filter_context=deep(case["ctx"])))))
     out["values"] = attempt(lambda: [SX.canon(v) for v in c.findall(doc, filter_context=deep(case["ctx"]))])
     out["doc_unchanged"] = SX.canon(doc) == SX.canon(case["doc"])
+    if isinstance(out["values"], list) and out["values"][:1] != ["err"] and isinstance(case["doc"], (dict, list)):
+        from .evalbase import entry_points
+        out["entry_points"] = entry_points(text, case["doc"], case["ctx"], reference=["ok", out["values"]])
     return out
 
 
@@ -109,15 +121,17 @@ def decode(sx, case):
     model["matches"] = decode_matches(fi[1]) if fi[0] == "ok" else ["err", fi[1]]
     model["values"] = [SX.canon(SX.sx2j(v)) for v in fa[1]] if fa[0] == "ok" else ["err", fa[1]]
     model["doc_unchanged"] = True
+    if fa[0] == "ok" and isinstance(case["doc"], (dict, list)):
+        model["entry_points"] = "same"
     nodes = [[[p if isinstance(p, int) else ["k", p] for p in sx_to_loc(n[0])], SX.canon(SX.sx2j(n[1]))] for n in spec[1]]
-    sp = {"nodes": nodes, "values": [n[1] for n in nodes]}
+    sp = {"nodes": nodes, "values": [n[1] for n in nodes], "entry_points": "same"}
     return {"model": model, "spec": sp, "in_domain": ext[1] == "true" and wf[1] == "true"}
 
 
 def project(case, res, dec=None):
     if "matches" not in res or (res["matches"] and res["matches"][0] == "err"):
         return {"unexpected": res.get("compile") or res.get("matches")}
-    return {"nodes": [[m[0], m[2]] for m in res["matches"]], "values": res["values"]}
+    return {"nodes": [[m[0], m[2]] for m in res["matches"]], "values": res["values"], "entry_points": res.get("entry_points", "same")}
 
 
 def _has_ext(x):
